@@ -671,7 +671,7 @@ func (c *Ctx) panicString(v value) string {
 		}
 		if i.t != nil {
 			// error or Stringer: try Error()
-			if m := c.eng.prog.LookupMethod(i.t, nil, "Error"); m != nil {
+			if m := c.eng.findMethod(i.t, "Error"); m != nil {
 				var s string
 				func() {
 					defer func() {
